@@ -322,17 +322,20 @@ float32_le_write (float in, unsigned char *out)
 
 	memset (out, 0, sizeof (int)) ;
 
-	if (fabs (in) < FLT_MIN)
-		return ;
-
-	if (in < 0.0)
+	if (signbit (in))
 	{	in *= -1.0 ;
 		negative = 1 ;
 		} ;
 
-	in = frexp (in, &exponent) ;
-
-	exponent += 126 ;
+	if (in < FLT_MIN)
+	{	/* Zero or subnormal : exponent field 0, no hidden bit, mantissa = in * 2^149. */
+		in = ldexp (in, 125) ;
+		exponent = 0 ;
+		}
+	else
+	{	in = frexp (in, &exponent) ;
+		exponent += 126 ;
+		} ;
 
 	in *= (float) 0x1000000 ;
 	mantissa = (((int) in) & 0x7FFFFF) ;
@@ -357,17 +360,20 @@ float32_be_write (float in, unsigned char *out)
 
 	memset (out, 0, sizeof (int)) ;
 
-	if (fabs (in) < FLT_MIN)
-		return ;
-
-	if (in < 0.0)
+	if (signbit (in))
 	{	in *= -1.0 ;
 		negative = 1 ;
 		} ;
 
-	in = frexp (in, &exponent) ;
-
-	exponent += 126 ;
+	if (in < FLT_MIN)
+	{	/* Zero or subnormal : exponent field 0, no hidden bit, mantissa = in * 2^149. */
+		in = ldexp (in, 125) ;
+		exponent = 0 ;
+		}
+	else
+	{	in = frexp (in, &exponent) ;
+		exponent += 126 ;
+		} ;
 
 	in *= (float) 0x1000000 ;
 	mantissa = (((int) in) & 0x7FFFFF) ;
